@@ -123,6 +123,11 @@ def run_scenario(run: Run, scen: dict, rng: random.Random):
     mc = common.ModelCircuit(sc)
     mi = common.ModelCircuit(isc, mode=mc.mode)
     try:
+        # cost guard for the model side: (unfolded tree) x (assignments of Z) x rows
+        n_assign = int(np.prod([1 if z in cont else spec["states"][str(z)] for z in zs], dtype=float))
+        if max(mc.tree_size, mi.tree_size) > common.TREE_LIMIT or mc.tree_size * n_assign * B > 3_000_000:
+            run.feature("skipped_large_model", True)
+            return
         comp = real.TorchCompiler(semiring=semiring, fold=fold, optimize=optimize)
         for o_ in operands:
             comp.compile(o_)
